@@ -18,10 +18,24 @@ import (
 	"golang.org/x/tools/go/ssa/ssautil"
 )
 
-const (
-	repoDir  = "/repo"
-	verifDir = "/verif"
-)
+const verifDir = "/verif"
+
+// repoDir is /repo. $VERIF_REPO redirects the checks to another checkout and $VERIF_OUT their
+// scratch/evidence output elsewhere (development aid: the sensitivity matrix runs the checks
+// against patched copies without touching /repo; registered commands never set them).
+var repoDir = func() string {
+	if v := os.Getenv("VERIF_REPO"); v != "" {
+		return v
+	}
+	return "/repo"
+}()
+
+var outRoot = func() string {
+	if v := os.Getenv("VERIF_OUT"); v != "" {
+		return v
+	}
+	return verifDir
+}()
 
 func usage() {
 	fmt.Fprintln(os.Stderr, "usage: gosmt check <ID> [--tier quick|thorough] | gosmt run <pkg> <harness>... | gosmt replay <cex.json> | gosmt selftest")
